@@ -234,6 +234,83 @@ def builtin_fn(ex, st, nm, e, cx, k):
     raise VCError(f'unknown function {nm}: {ast.unparse(e)}')
 
 
+SIO_ROW, SIO_NL, SIO_TEXT, SIO_ADDR0 = -1, -2, -3, -16
+
+
+def sio_write(ex, st, obj, e, cx, k):
+    """output.write(<text>) on an io.StringIO.  The text is recorded as one TOKEN (an int) chosen by the shape of the
+    argument expression -- this is the (trusted) reading of the printers' output formats:
+        ':'                                   ->  -1          start of a data row
+        '\\n'                                  ->  -2          end of line
+        f'{b:02x} ' (one int, two hex digits) ->  b           a byte value 0..255 (any other value: -3)
+        '<fmt>'.format(a, ...) / .format(addr=a, ...) with a an int
+                                              ->  -16 - a     an address field
+        anything else                         ->  -3          text without meaning for the address-to-byte map
+    """
+    arg = e.args[0]
+    n, arr = ex.list_len(st, obj), ex.list_arr(st, obj)
+
+    def push(s, code):
+        return k(ex.set_list(s, obj, n + 1, z3.Store(arr, n, code)), NONE_SV)
+    if isinstance(arg, ast.Constant) and isinstance(arg.value, str):
+        return push(st, I({':': SIO_ROW, '\n': SIO_NL}.get(arg.value, SIO_TEXT)))
+    if isinstance(arg, ast.JoinedStr):
+        fvs = [v for v in arg.values if isinstance(v, ast.FormattedValue)]
+        consts = [v.value for v in arg.values if isinstance(v, ast.Constant)]
+        if len(fvs) == 1 and consts == [' '] and isinstance(fvs[0].format_spec, ast.JoinedStr) \
+                and len(fvs[0].format_spec.values) == 1 and isinstance(fvs[0].format_spec.values[0], ast.Constant) \
+                and fvs[0].format_spec.values[0].value == '02x':
+            def fb(s, v):
+                if v.ty.kind != 'int':
+                    return push(s, I(SIO_TEXT))
+                return push(s, z3.If(z3.And(v.z >= 0, v.z <= 255), v.z, I(SIO_TEXT)))
+            return ex.ev(st, fvs[0].value, cx, fb)
+        return ex.ev(st, arg, cx, lambda s, v: push(s, I(SIO_TEXT)))
+    if isinstance(arg, ast.Call) and isinstance(arg.func, ast.Attribute) and arg.func.attr == 'format':
+        kws = {kw.arg: kw.value for kw in arg.keywords}
+        a_ = kws.get('addr', arg.args[0] if arg.args else None)
+        if a_ is not None:
+            def fa(s, v):
+                if v.ty.kind == 'opt' and v.ty.args[0].kind == 'int':
+                    dt = T.sort_of(v.ty)
+                    return ex.guard_raise(s, cx, z3.Not(dt.is_some(v.z)), 'TypeError', e,
+                                          lambda s2: push(s2, I(SIO_ADDR0) - dt.val(v.z)), why='format of None as hex')
+                if v.ty.kind != 'int':
+                    return push(s, I(SIO_TEXT))
+                return push(s, I(SIO_ADDR0) - v.z)
+            return ex.ev(st, a_, cx, fa)
+    return ex.ev(st, arg, cx, lambda s, v: push(s, I(SIO_TEXT)))
+
+
+def sio_puts(ex, st, obj, e, cx, k):
+    """IntelHex.puts(addr, data) (external library, trusted): data[j] is stored at addr + j, everything else is kept.
+    The IntelHex object is modelled by the address-to-byte map it holds (the array of its list model; the length is
+    not used).  `data` must be the latin-1 text of a line's bytes (<bytearray>.decode(...))."""
+    if len(e.args) != 2:
+        raise VCError(f'puts: {ast.unparse(e)}')
+
+    def with_args(st, vs):
+        a, b = vs
+        if b.ty not in (T.BYTEARRAY, T.BYTES):
+            raise VCError(f'puts: data is not the bytes of a line: {ast.unparse(e)}')
+        n, arr = ex.list_len(st, obj), ex.list_arr(st, obj)
+        bn, barr = ex.list_len(st, b), ex.list_arr(st, b)
+
+        def cont(s, az):
+            ex.counter += 1
+            new = z3.Const(f'puts!{ex.counter}', arr.sort())
+            x = z3.Int('x!puts')
+            s = s.assume(z3.ForAll([x], z3.Select(new, x) == z3.If(z3.And(az <= x, x < az + bn), ex.select(barr, x - az),
+                                                                  z3.Select(arr, x)), patterns=[z3.Select(new, x)]))
+            return k(ex.set_list(s, obj, n, new), NONE_SV)
+        if a.ty.kind == 'opt' and a.ty.args[0].kind == 'int':
+            dt = T.sort_of(a.ty)
+            return ex.guard_raise(st, cx, z3.Not(dt.is_some(a.z)), 'TypeError', e, lambda s2: cont(s2, dt.val(a.z)),
+                                  why='puts at address None')
+        return cont(st, ex.coerce(a, INT).z)
+    return ex.ev_list(st, [e.args[0], e.args[1]], cx, with_args)
+
+
 def sum_genexp(ex, st, e, cx, k):
     """sum(<elt> for <v> in <iterable>) is the left fold of + from 0 (Python's definition): executed as the loop
            _sumN = 0
@@ -284,6 +361,9 @@ def module_fn(ex, st, mod, attr, e, cx, k):
                 exact_float_site(ex, st, cx, e, n, ast.unparse(e))
             return k(st, SV(INT, (n + I(d[1] - 1)) / I(d[1])))
         return ex.ev(st, d[0], cx, f)
+    if mod == 'io' and attr == 'StringIO' and not args:
+        s2, r = ex.new_list(st, T.SIO, I(0), ex.empty_arr(INT), 'sio')
+        return k(s2, r)
     if mod == 'click' and attr == 'echo':
         return k(st, NONE_SV)
     if mod == 're' and attr in ('search', 'match', 'fullmatch'):
@@ -376,6 +456,9 @@ def builtin_method(ex, st, obj, mname, args, kwargs, cx, node, k):
                 return ex.guard_raise(st, cx, z3.Or(x.z < 0, x.z > 255), 'ValueError', node, cont,
                                       why='byte must be in range(0, 256)')
             return cont(st)
+        if mname == 'decode' and t in (T.BYTEARRAY, T.BYTES):
+            # the latin-1 text of a byte string is used only as the data of IntelHex.puts: it stands for the bytes themselves
+            return k(st, obj)
         if mname == 'extend':
             o = args[0]
             on, oat0 = ex.seq_view(st, o)
